@@ -103,7 +103,8 @@ def dims(cf):
 
 def random_picture(cf, rng, kind=None, pic_num=None):
     """An in-range picture for cf.  kind: noise|zeros|max|mid|extremes|ramp"""
-    kind = kind or rng.choice(["noise", "zeros", "max", "mid", "extremes", "ramp"])
+    # noise dominates: only busy content fills lossy slices up to their byte budgets
+    kind = kind or rng.choice(["noise", "noise", "noise", "noise", "zeros", "max", "mid", "extremes", "ramp"])
     pic = {}
     for c, (w, h, depth) in dims(cf).items():
         top = (1 << depth) - 1
@@ -194,7 +195,7 @@ def random_small_config(rng, allow_ld=True, allow_fragments=True, allow_fields=T
     w = xmul * rng.randint(1, max(1, max_w // xmul))
     h = ymul * rng.randint(1, max(1, max_h // ymul))
     sx = rng.choice([1, 1, 2, 3, 4])
-    sy = rng.choice([1, 1, 2, 3])
+    sy = rng.choice([1, 1, 2, 2, 3])
     frag = 0
     if allow_fragments and rng.random() < 0.35:
         frag = rng.randint(1, sx * sy + 1)
@@ -217,7 +218,11 @@ def random_small_config(rng, allow_ld=True, allow_fragments=True, allow_fields=T
         if profile == "hq":
             kw["picture_bytes"] = rng.choice([4 * n, 4 * n + rng.randint(0, 40), n * rng.randint(4, 300), 100000])
         else:
-            kw["picture_bytes"] = rng.choice([n * rng.randint(1, 8), n * rng.randint(1, 200) + rng.randint(0, n), 50000])
+            # low-delay slice sizes differ by a byte when picture_bytes is not a multiple of the slice count:
+            # make that the common case, and keep budgets tight so that slices are filled to the last bits
+            kw["picture_bytes"] = rng.choice([n * rng.randint(1, 8), n * rng.randint(1, 8) + rng.randint(1, max(1, n - 1)),
+                                              n * rng.randint(4, 60) + rng.randint(1, max(1, n - 1)),
+                                              n * rng.randint(1, 200) + rng.randint(0, n), 50000])
     return kw
 
 
